@@ -88,6 +88,7 @@ Proof.
        rewrite (rd_pop r _ _ _ _ Hst);
        rewrite (rd_pop (after r [(TFlag false, u1)] ((TCol cl, u2) :: fst rest, snd rest) (rsess r))
                        (TCol cl) u2 (fst rest) (snd rest) eq_refl);
+       rewrite map_length, Hl, Nat.eqb_refl, andb_false_r;
        rewrite gob_into_zero by exact Hl;
        rewrite after_after; cbn [rsess after]; rewrite Hs; destruct rest; reflexivity.
   destruct es as [|[t1 u1] es]; [discriminate|]. simpl in Hes. injection Hes as -> Hes. simpl in Hst.
@@ -146,14 +147,6 @@ Definition cut_err_tok (term : sterm) (next : token) : err :=
   | TCol _, SIoEOF => if fix_eof cf then EUnexpected else EEOF
   | _, _ => rawe term
   end.
-
-Lemma rd_end_raw (r : R) term : rst r = (([], term) : dscript) ->
-  raw_err dscript Sess (rd r) = rawe term /\ (forall t r', rd r <> TokOk t r')
-  /\ (rd r = TokIoEOF <-> term = SIoEOF).
-Proof.
-  intro H. rewrite (rd_end r term H). destruct term; simpl; repeat split; try discriminate; try reflexivity;
-    intro; discriminate.
-Qed.
 
 Definition dflt : token := TLen 0.
 
